@@ -196,3 +196,17 @@ func H_C03_Step() {
 	}
 	v.Reach("end")
 }
+
+// H_C01_InvReach: the representation invariant assumed by the inductive step
+// is not stronger than reality: every state reached by a set-up prefix plus K
+// arbitrary arrivals from the zero Map satisfies it (so the step's
+// assumption excludes no state that such histories produce).
+func H_C01_InvReach() {
+	var m Map
+	var h hist
+	h.history(&m, v.Param("K"))
+	if len(m.entries) <= 4 {
+		v.Assert(zzInvS(&m), "every reachable interval table satisfies the representation invariant the inductive step starts from")
+	}
+	v.Reach("end")
+}
